@@ -75,7 +75,24 @@ public:
     {
         auto storage =
             default_allocator().allocate_node(sizeof(temporary_stack), alignof(temporary_stack));
-        return ::new (storage) temporary_stack(0, size);
+        temporary_stack* stack = nullptr;
+#if FOONATHAN_HAS_EXCEPTION_SUPPORT
+        try
+        {
+            // not linked yet: if allocating the first block throws, there must be no half-built node in the list
+            stack = ::new (storage) temporary_stack(size);
+        }
+        catch (...)
+        {
+            default_allocator().deallocate_node(storage, sizeof(temporary_stack),
+                                                alignof(temporary_stack));
+            throw;
+        }
+#else
+        stack = ::new (storage) temporary_stack(size);
+#endif
+        stack->link();
+        return stack;
     }
 
     temporary_stack* find_unused()
@@ -98,7 +115,19 @@ public:
         {
             FOONATHAN_MEMORY_VERIF_YIELD("temp.create.reinit_adopted");
             FOONATHAN_MEMORY_ASSERT(ptr->in_use_);
+#if FOONATHAN_HAS_EXCEPTION_SUPPORT
+            try
+            {
+                ptr->stack_ = detail::temporary_stack_impl(size);
+            }
+            catch (...)
+            {
+                ptr->in_use_ = false; // nobody got it: stays available
+                throw;
+            }
+#else
             ptr->stack_ = detail::temporary_stack_impl(size);
+#endif
             return ptr;
         }
         return create_new(size);
@@ -156,6 +185,11 @@ namespace
 } // namespace
 
 detail::temporary_stack_list_node::temporary_stack_list_node(int) noexcept : in_use_(true)
+{
+    link();
+}
+
+void detail::temporary_stack_list_node::link() noexcept
 {
     FOONATHAN_MEMORY_VERIF_YIELD("temp.push.load_head");
     next_ = temporary_stack_list_obj.first.load();
